@@ -75,14 +75,16 @@ def parts(tier, seed=0):
     b = []
     for k1 in STRUCT:
         for k2 in STRUCT:
-            b.append((G.mk_spec(G.NAMES0, [k1, k2], [R]), dict(dom_n=2, arg_dom_n=1, multi_len=2, arg_multi_len=1)))
+            b.append((G.mk_spec(G.NAMES0, [k1, k2], [R]), dict(dom_n=2, arg_dom_n=1, multi_len=1 if q else 2, arg_multi_len=1)))
             b.append((G.mk_spec(G.NAMES1, [k1, k2], [R, M]),
                       dict(dom_n=1 if q else 2, arg_dom_n=1, multi_len=1 if q else 2, arg_multi_len=1)))
+            if q and "multi" in (k1[0], k2[0]):  # repeated multi-valued options next to another option
+                b.append((G.mk_spec(G.NAMES0, [k1, k2], [R]), dict(dom_n=1, arg_dom_n=1, multi_len=2, arg_multi_len=1)))
     # ... and every pair that involves a typed kind
     for k1 in STRUCT + TYPED:
         for k2 in STRUCT + TYPED:
             if k1 in TYPED or k2 in TYPED:
-                b.append((G.mk_spec(G.NAMES0, [k1, k2], [R]), dict(dom_n=1 if q else 2, arg_dom_n=1, multi_len=2, arg_multi_len=1)))
+                b.append((G.mk_spec(G.NAMES0, [k1, k2], [R]), dict(dom_n=1 if q else 2, arg_dom_n=1, multi_len=1 if q else 2, arg_multi_len=1)))
     P.append(("B:option-pairs", b))
 
     # C: every legal argument shape with types, command names (spelled / aliased / suffix omitted), `--` tails
